@@ -1,10 +1,216 @@
+import PdshVerif.Base.Hex
+import PdshVerif.Pcp.Spec
 import Driver.Util
 
-/-! engine stub: filled in by the owner of this engine (see FRAMEWORK.md) -/
+/-! line protocol of the `pcp` engine (C11, C12): the receiver model `sink`, the sender model `send`,
+the command-line construction and the two specifications, driven by checks/c11.py, checks/c12.py.
+
+    sink   P Y UMASK CNT REPAIRED CWD DEST STREAM FSENTRY...
+    rt     P Y UMASK CNT REPAIRED CWD DEST REVERSE HOST NFS FSENTRY... SRCTOKENS...
+    spec11 P DESTPATH NFS FSENTRY... SRCTOKENS...
+    spec12 DESTPATH PATH...
+    cmdf   PROG R P NENT DEST            cmdr PROG R P HOST FILE...
+    norm   CWD STRING                    (lexical normal form of a path string)
+
+  FSENTRY   = <path>:<d|f>:<mode octal>:<mtime>:<content>     path = hex of "a/b/c" ("-" = root)
+  mtime     = ? | <sec> | <sec>.<usec>          content = - | h<hex> | g<seed>.<len>
+  SRCTOKENS = pre-order:  F <name> <mode> <mtime> <atime> <content>  |  D <name> <mode> <mtime> <atime> ... )
+  answers list file contents as <len>.<crc32>.
+-/
 namespace Driver.PcpDrv
+open PdshVerif PdshVerif.Pcp
+
+def octVal (s : String) : Option Nat :=
+  s.toList.foldl (fun acc c => acc.bind fun a =>
+    if '0' ≤ c ∧ c ≤ '7' then some (a * 8 + (c.toNat - 48)) else none) (some 0)
+
+def toOct (n : Nat) : String := String.ofList (Nat.toDigits 8 n)
+
+def crcStep (c : UInt32) : UInt32 := (c >>> 1) ^^^ (0xEDB88320 &&& (0 - (c &&& 1)))
+
+def crcByte (c : UInt32) (b : UInt8) : UInt32 :=
+  crcStep (crcStep (crcStep (crcStep (crcStep (crcStep (crcStep (crcStep (c ^^^ b.toUInt32))))))))
+
+def crc32 (bs : List UInt8) : UInt32 := (bs.foldl crcByte 0xFFFFFFFF) ^^^ 0xFFFFFFFF
+
+/-- generated file contents shared with checks/: an LCG -/
+def genBytes (seed len : Nat) : Str :=
+  let rec go : Nat → Nat → Str → Str
+    | 0, _, acc => acc.reverse
+    | n + 1, x, acc =>
+      let x' := (x * 1103515245 + 12345) % 2147483648
+      go n x' (UInt8.ofNat (x' / 65536 % 256) :: acc)
+  go len seed []
+
+def pathOfHex (s : String) : Option Path :=
+  (Hex.decode s).map fun bs => comps bs
+
+def hexOfPath (p : Path) : String :=
+  Hex.encode (match p with
+    | [] => []
+    | c :: cs => cs.foldl (fun acc x => acc ++ cSlash :: x) c)
+
+def parseTimeOpt (s : String) : Option (Option Time) :=
+  if s = "?" then some none
+  else match s.splitOn "." with
+    | [a] => a.toInt?.map fun x => some ⟨x, 0⟩
+    | [a, b] => match a.toInt?, b.toInt? with
+      | some x, some y => some (some ⟨x, y⟩)
+      | _, _ => none
+    | _ => none
+
+def parseContent (s : String) : Option Str :=
+  match s.toList with
+  | ['-'] => some []
+  | 'h' :: r => Hex.decode (String.ofList r)
+  | 'g' :: r =>
+    match (String.ofList r).splitOn "." with
+    | [a, b] => match a.toNat?, b.toNat? with
+      | some seed, some len => some (genBytes seed len)
+      | _, _ => none
+    | _ => none
+  | _ => none
+
+def parseEntry (s : String) : Option (Path × Node) :=
+  match s.splitOn ":" with
+  | [p, k, m, t, c] =>
+    match pathOfHex p, octVal m, parseTimeOpt t, parseContent c with
+    | some p, some m, some t, some c =>
+      if k = "d" then some (p, .dir m t) else if k = "f" then some (p, .file m t c) else none
+    | _, _, _, _ => none
+  | _ => none
+
+def parseEntries (ws : List String) : Option (List (Path × Node)) :=
+  ws.foldr (fun w acc => acc.bind fun l => (parseEntry w).map (· :: l)) (some [])
+
+def fsOf (es : List (Path × Node)) : FS := fun q => es.lookup q
+
+def showTime : Option Time → String
+  | none => "?"
+  | some t =>
+    if t.sec < 0 ∨ 2147483647 < t.sec then "!"          -- outside what the checks compare
+    else if t.usec = 0 then s!"{t.sec}" else s!"{t.sec}.{t.usec}"
+
+def showNode (p : Path) : Option Node → String
+  | none => s!"{hexOfPath p}:x:0:?:-"
+  | some (.dir m t) => s!"{hexOfPath p}:d:{toOct m}:{showTime t}:-"
+  | some (.file m t d) => s!"{hexOfPath p}:f:{toOct m}:{showTime t}:{d.length}.{(crc32 d).toNat}"
+
+def showWhy : Why → String
+  | .newline => "newline" | .lost => "lost" | .mtimeSec => "mtimeSec" | .mtimeUsec => "mtimeUsec"
+  | .atimeSec => "atimeSec" | .atimeUsec => "atimeUsec" | .expected => "expected"
+  | .badMode => "badMode" | .modeDelim => "modeDelim" | .sizeDelim => "sizeDelim"
+  | .badName => "badName"
+
+def showReply : Reply → String
+  | .ack => "A"
+  | .err .notdir => "E:notdir"
+  | .err (.screwup w) => "E:screwup:" ++ showWhy w
+  | .err .path => "E:path"
+  | .err .trunc => "E:trunc"
+  | .err .times => "E:times"
+  | .err .respLost => "E:respLost"
+  | .err .respBad => "E:respBad"
+  | .err .read => "E:read"
+
+def commaJoin (l : List String) : String := if l.isEmpty then "-" else ",".intercalate l
+
+def showResult (init : List (Path × Node)) (st : St) : String :=
+  let touched := st.touched.reverse
+  let paths := (init.map (·.1) ++ touched).eraseDups
+  let fsOut := paths.map fun p => showNode p (st.fs p)
+  s!"replies={commaJoin (st.out.reverse.map showReply)} touched={commaJoin (touched.map hexOfPath)} " ++
+  s!"ub={if st.ub then 1 else 0} fs={commaJoin fsOut}"
+
+/-- pre-order tree tokens; returns siblings up to a closing `)` (consumed) or the end -/
+def parseTrees : Nat → List String → Option (List (Str × Tree) × List String)
+  | 0, _ => none
+  | _ + 1, [] => some ([], [])
+  | _ + 1, ")" :: r => some ([], r)
+  | f + 1, "F" :: n :: m :: t :: a :: c :: r =>
+    match Hex.decode n, octVal m, t.toNat?, a.toNat?, parseContent c with
+    | some n, some m, some t, some a, some c =>
+      (parseTrees f r).map fun (sibs, r') => ((n, Tree.file m t a c) :: sibs, r')
+    | _, _, _, _, _ => none
+  | f + 1, "D" :: n :: m :: t :: a :: r =>
+    match Hex.decode n, octVal m, t.toNat?, a.toNat? with
+    | some n, some m, some t, some a =>
+      match parseTrees f r with
+      | some (kids, r') => (parseTrees f r').map fun (sibs, r'') => ((n, Tree.dir m t a kids) :: sibs, r'')
+      | none => none
+    | _, _, _, _ => none
+  | _ + 1, _ => none
+
+def parseSrcs (ws : List String) : Option (List (Str × Tree)) :=
+  match parseTrees (ws.length + 2) ws with
+  | some (l, []) => some l
+  | _ => none
+
+def flag (s : String) : Bool := s = "1"
+
+def mkOpts (p y um cnt rep cwd dest : String) : Option Opts :=
+  match octVal um, cnt.toNat?, pathOfHex cwd, Hex.decode dest with
+  | some um, some cnt, some cwd, some dest =>
+    some { preserve := flag p, targetIsDir := flag y, umask := um, cnt := cnt, repaired := flag rep,
+           cwd := cwd, dest := dest }
+  | _, _, _, _ => none
+
+def showBad : Spec.Bad → String
+  | .missing => "missing" | .kind => "kind" | .data => "data" | .mode => "mode" | .mtime => "mtime"
+  | .names => "names"
+
+def handle (line : String) : String :=
+  match Driver.words line with
+  | "sink" :: p :: y :: um :: cnt :: rep :: cwd :: dest :: stream :: fsw =>
+    match mkOpts p y um cnt rep cwd dest, Hex.decode stream, parseEntries fsw with
+    | some o, some stream, some es => showResult es (run o (fsOf es) stream)
+    | _, _, _ => "bad-op"
+  | "rt" :: p :: y :: um :: cnt :: rep :: cwd :: dest :: rev :: host :: nfs :: rest =>
+    match mkOpts p y um cnt rep cwd dest, Hex.decode host, nfs.toNat? with
+    | some o, some host, some nfs =>
+      match parseEntries (rest.take nfs), parseSrcs (rest.drop nfs) with
+      | some es, some srcs =>
+        let stream := send { preserve := o.preserve, reverse := flag rev, host := host } srcs
+        let shown := if stream.length ≤ 6000 then Hex.encode stream else "~"
+        s!"nent={(expandAll srcs).length} c2slen={stream.length} c2scrc={(crc32 stream).toNat} c2s={shown} " ++
+          showResult es (run o (fsOf es) stream)
+      | _, _ => "bad-op"
+    | _, _, _ => "bad-op"
+  | "spec11" :: p :: dpath :: nfs :: rest =>
+    match pathOfHex dpath, nfs.toNat? with
+    | some dpath, some nfs =>
+      match parseEntries (rest.take nfs), parseSrcs (rest.drop nfs) with
+      | some es, some srcs =>
+        let listing := es.map (·.1)
+        let bad := Spec.checkKids (flag p) (fsOf es) listing dpath srcs
+        if bad.isEmpty then "ok"
+        else "bad " ++ commaJoin (bad.map fun (q, b) => s!"{hexOfPath q}:{showBad b}")
+      | _, _ => "bad-op"
+    | _, _ => "bad-op"
+  | "spec12" :: dpath :: paths =>
+    match pathOfHex dpath, paths.foldr (fun w acc => acc.bind fun l => (pathOfHex w).map (· :: l)) (some []) with
+    | some dpath, some ps =>
+      let esc := Spec.escapes dpath ps
+      if esc.isEmpty then "ok" else "escape " ++ commaJoin (esc.map hexOfPath)
+    | _, _ => "bad-op"
+  | ["cmdf", prog, r, p, nent, dest] =>
+    match Hex.decode prog, nent.toNat?, Hex.decode dest with
+    | some prog, some nent, some dest => Hex.encode (pdcpCmd prog (flag r) (flag p) nent dest)
+    | _, _, _ => "bad-op"
+  | "cmdr" :: prog :: r :: p :: host :: files =>
+    match Hex.decode prog, Hex.decode host,
+          files.foldr (fun w acc => acc.bind fun l => (Hex.decode w).map (· :: l)) (some []) with
+    | some prog, some host, some files => Hex.encode (rpdcpCmd prog (flag r) (flag p) files host)
+    | _, _, _ => "bad-op"
+  | ["norm", cwd, s] =>
+    match pathOfHex cwd, Hex.decode s with
+    | some cwd, some s => hexOfPath (lexNorm cwd s)
+    | _, _ => "bad-op"
+  | _ => "bad-op"
 
 def main (_args : List String) : IO UInt32 := do
-  IO.eprintln "engine not implemented"
-  return 2
+  let stdin ← IO.getStdin
+  Driver.forLines stdin () (fun _ l => ((), handle l))
+  return 0
 
 end Driver.PcpDrv
